@@ -43,6 +43,10 @@ CLAIMED = {
    text="Deductive, partial: when Initialize rebuilds a missing index it indexes from position 0 with purge and with non-initializing name sanitising, from the configured read backend (a flipped flag fails); truncation can only come from the manager's overwrite flag (C05); a read-only instance never appends (C15).",
    note="Undecided / known gaps on the pinned tree: a rebuild error (torn tail) falls through to creating a second root; a stale index is accepted as is; appending after an unaligned cut.",
    design="4.16"),
+ "C17": dict(
+   text="Deductive, partial: every header handed to the tar writer by Archive/Update/Delete/Move is in PAX format whatever format the indexed row came from (so members of foreign ustar/GNU archives can be removed and renamed); a record without STFS action/version records is applied as a version-1 CREATE; the cache wrapper adds a base-path view exactly when the root is not one of the four root spellings and passes root and base unchanged; IsRoot recognises exactly the four spellings; the rebuild of a foreign tape uses the non-initializing (sanitising) name handling from position 0 (shared with C16); header positions survive the zero blocks between concatenated archives (C04 invariant).",
+   note="Undecided (library behaviour or not built): that archive/tar parses every ustar/PAX/GNU archive, afero.BasePathFs path composition, the root-inference SQL, getSanitizedPath's spelling equivalence per root shape (DESIGN 4.17), the size of foreign members after a metadata update.",
+   design="4.17"),
  "C04": dict(
    text="Deductive: the position arithmetic of the regular-drive branches of recovery.Index and recovery.Query is proved for every record size >= 1 and every byte offset by a loop invariant over a ghost model of the drive offset and of archive/tar's reader (next header = drive offset + unread payload + padding): the (record, block) handed to the indexer/callback with each header is that header's start, 0 <= block < record size; Fetch seeks to exactly 512*(recordSize*record+block); Restore passes the row's own position. Non-linear integer arithmetic with a real-valued ceiling, unbounded.",
    note="Assumed: tar reader/Seek/io.Copy ghost specs written from reading archive/tar (specs/30_tar_positions.spec); float64 ceiling exact below 2^53; machine integers mathematical. Not decided here: tape-drive (mt ioctl) branches; the row-position rules of indexHeader and the last-indexed invariant (index-view obligations, not built yet); 'fetching returns current content' rests on C03/C05.",
@@ -77,7 +81,7 @@ NOT_YET = {
 
 
 
- "C17": "not yet built (planned, DESIGN 4.17)",
+
  "C18": "No contract within reach can express or decide it: every clause quantifies over third-party cryptography (age scrypt, go-crypto S2K, minisign KDF) for all passwords; the stfs code involved is format dispatch only (DESIGN section 5).",
 }
 
